@@ -44,6 +44,13 @@ public:
             throw_error("can't open file: `{}`", path);
         }
         output_stream << data;
+        // `close()` flushes, both report failures (e.g. `ENOSPC`) via stream
+        // state
+        output_stream.close();
+        if(!output_stream)
+        {
+            throw_error("can't write file: `{}`", path);
+        }
     }
 
     void create_directories(const std::filesystem::path& path) override
